@@ -3,10 +3,11 @@
 # Confirms in a scratch worktree of /repo HEAD: patch applies, repo tests pass with it, demo fails with it and passes without it.
 export GOFLAGS=-mod=mod GOPROXY=off GOSUMDB=off GOTOOLCHAIN=local MOCKEY_CHECK_GCFLAGS=false
 p=$1; v=$2
-src=/tmp/seed/$p/$v
+src=${SEED_SRC:-/tmp/seed}/$p/$v
+dv=${SEED_DST_V:-$v}
 ID=$(echo $p | tr c C)
-dst=/verif/seeded/$ID-$v
-sw=/tmp/sw-$p$v
+dst=/verif/seeded/$ID-$dv
+sw=/tmp/sw-$p$dv
 [ -f $src/patch.diff ] || { echo "$p $v: no patch"; exit 1; }
 demo=$(ls $src/demo_test.go 2>/dev/null)
 [ -n "$demo" ] || { echo "$p $v: no demo"; exit 1; }
@@ -35,7 +36,7 @@ fi
 cd /; git -C /repo worktree remove --force $sw
 mkdir -p $dst
 cp $src/patch.diff $dst/patch.diff; cp $demo $dst/demo_test.go.txt; [ -f $src/NOTES.md ] && cp $src/NOTES.md $dst/NOTES.md
-python3 - "$ID" "$v" "$dir" "$tests" "$res_apply" "$with" "$without" "$suite_fail" "$dst" <<'PY'
+python3 - "$ID" "$dv" "$dir" "$tests" "$res_apply" "$with" "$without" "$suite_fail" "$dst" <<'PY'
 import json,sys
 ID,v,d,tests,ap,w,wo,sf,dst=sys.argv[1:]
 ok = ap=="ok" and w not in ("0","NA") and wo=="0" and sf==""
